@@ -196,6 +196,12 @@ class C19(Prop):
         yield {"k": "path", "kind": "q", "err": 0.1, "d": "M0,0 L 5,5 A 0,5 0 0 1 20,25 L 30,30 z"}
         yield {"k": "path", "kind": "c", "err": 0.1, "d": "M0,0 L 5,5 A 7,5 0 0 1 5,5 L 30,30"}
         yield {"k": "path", "kind": "c", "err": 0.1, "d": "M10,10 A 30,20 25 1 0 40,10 A 5,50 -60 0 1 0,0 z A 3 3 0 0 0 4 4"}
+        # a closepath followed directly by a drawing command (a subpath that begins where the previous one was closed), closed again
+        for kind in "cq":
+            for d in ("M0,0 L10,0 A5,5 0 0 1 10,10 Z L5,5 L5,0 Z", "M0,0 A5,5 0 0 1 10,10 Z L20,20 A3,3 0 0 0 25,25 Z",
+                      "M1,1 L4,1 Z Q5,5 6,1 A2,2 0 0 1 8,1 Z M20,20 A5,5 0 1 1 30,20 Z", "M0,0 L4,0 L4,3 Z L9,9 A4,2 30 1 0 2,7 Z L1,1",
+                      "M5,5 A3,3 0 0 1 8,8 Z A4,4 0 0 0 12,12 L0,9 Z"):
+                yield {"k": "path", "kind": kind, "err": 0.1, "d": d}
         n = 1200 if tier == "quick" else 60000
         for i in range(n):
             arc = centre_arc(rng) if rng.random() < 0.55 else endpoint_arc(rng)
